@@ -117,6 +117,12 @@ type lfLoopMeta struct {
 	Cons   []Cons        // constraints at the back edge of the generalised iteration
 }
 
+// lfSumRef is the range of a tracked buffer a checksum was computed over.
+type lfSumRef struct {
+	Org      string
+	Off, Len Lin
+}
+
 // lfElemRef locates a byte that was loaded from a tracked buffer.
 type lfElemRef struct {
 	Org string
@@ -214,6 +220,10 @@ type lfEngine struct {
 	capture int
 	// elemLoads: symbols standing for bytes loaded from a tracked buffer
 	elemLoads map[Sym]lfElemRef
+	// sumOf: symbols standing for the checksum of a range of a tracked buffer
+	sumOf map[Sym]lfSumRef
+	// dLen: length of the entry function's input byte slice (buffer "d")
+	dLen *Lin
 }
 
 type lfCopy struct{ Total, Partial int }
@@ -666,6 +676,24 @@ func (e *lfEngine) normalise(st *lfState, x Lin, t types.Type, name string) Lin 
 // mkCmp builds a comparison value; in bits mode it recognises "single source
 // bit (!=|==) 0" and keeps the bit.
 func (e *lfEngine) mkCmp(st *lfState, x *ssa.BinOp, a, b Lin, l, r lfVal) lfVal {
+	if ka, okA := a.isConst(); okA {
+		if kb, okB := b.isConst(); okB {
+			switch x.Op {
+			case token.EQL:
+				return vBoolConst(ka == kb)
+			case token.NEQ:
+				return vBoolConst(ka != kb)
+			case token.LSS:
+				return vBoolConst(ka < kb)
+			case token.LEQ:
+				return vBoolConst(ka <= kb)
+			case token.GTR:
+				return vBoolConst(ka > kb)
+			case token.GEQ:
+				return vBoolConst(ka >= kb)
+			}
+		}
+	}
 	c := vCmp{Op: x.Op, A: a, B: b}
 	if e.bits && (x.Op == token.NEQ || x.Op == token.EQL) {
 		li, lok := l.(vInt)
@@ -948,6 +976,10 @@ func (e *lfEngine) runEntry(fn *ssa.Function, setup func(fr *lfFrame, st *lfStat
 					if b, ok := sl.Elem().Underlying().(*types.Basic); ok && b.Kind() == types.Uint8 {
 						sv.Org = &sliceOrg{ID: e.id(), Name: "d", Off: linConst(0)}
 						v = sv
+						if e.dLen == nil {
+							dl := sv.Len
+							e.dLen = &dl
+						}
 					}
 				}
 			}
@@ -1003,12 +1035,100 @@ func (e *lfEngine) enter(fr *lfFrame, st *lfState, b, from *ssa.BasicBlock, k lf
 				}
 			}
 			if !already {
+				if e.unrollable(fr, st, l, from) {
+					// a loop with a small constant trip count is executed as written, iteration by
+					// iteration, with concrete counter values: no abstraction needed
+					break
+				}
 				e.execLoop(fr, st, l, from, k)
 				return
 			}
 		}
 	}
 	e.execFrom(fr, st, b, from, 0, k)
+}
+
+// unrollable: every loop-carried integer of the loop enters with a constant, one
+// of them is stepped by a non-zero constant on every back edge and compared with
+// a constant in a condition that leaves the loop, and the trip count that
+// follows is at most 16. Such a loop terminates after that many concrete
+// iterations whatever else happens in the body, so it can be interpreted
+// without summarising it.
+func (e *lfEngine) unrollable(fr *lfFrame, st *lfState, l *Loop, from *ssa.BasicBlock) bool {
+	h := l.Header
+	var counter *ssa.Phi
+	var start, stride int64
+	for _, in := range h.Instrs {
+		ph, ok := in.(*ssa.Phi)
+		if !ok {
+			break
+		}
+		var entry ssa.Value
+		for j, p := range h.Preds {
+			if p == from {
+				entry = ph.Edges[j]
+			}
+		}
+		if entry == nil {
+			return false
+		}
+		if !isIntType(ph.Type()) {
+			// a loop-carried slice or pointer: only if it enters as a constant-free value we do not track
+			return false
+		}
+		ev, ok := e.val(fr, st, entry).(vInt)
+		if !ok {
+			return false
+		}
+		k0, isK := ev.E.isConst()
+		if !isK {
+			return false
+		}
+		if c, _ := constStride(ph, l); c != 0 && counter == nil {
+			counter, start, stride = ph, k0, c
+		}
+	}
+	if counter == nil {
+		return false
+	}
+	// an exit test of the counter (or counter+stride) against a constant
+	for b := range l.Blocks {
+		ifi, ok := b.Instrs[len(b.Instrs)-1].(*ssa.If)
+		if !ok || (l.Blocks[b.Succs[0]] && l.Blocks[b.Succs[1]]) {
+			continue
+		}
+		bo, ok := ifi.Cond.(*ssa.BinOp)
+		if !ok {
+			continue
+		}
+		var bound int64
+		var isK bool
+		var side ssa.Value
+		if bound, isK = constInt(bo.Y); isK {
+			side = bo.X
+		} else if bound, isK = constInt(bo.X); isK {
+			side = bo.Y
+		}
+		if !isK {
+			continue
+		}
+		if side != ssa.Value(counter) {
+			if add, ok := side.(*ssa.BinOp); !ok || add.Op != token.ADD || add.X != ssa.Value(counter) {
+				continue
+			}
+		}
+		switch bo.Op {
+		case token.LSS, token.LEQ, token.GTR, token.GEQ, token.NEQ:
+		default:
+			continue
+		}
+		trips := (bound - start) / stride
+		if trips < 0 {
+			trips = -trips
+		}
+		return trips <= 16
+	}
+	return false
 }
 
 // cmpEvents records, on the states of both arms of a branch that compares a
@@ -1037,6 +1157,43 @@ func (e *lfEngine) cmpEvents(cond lfVal, ts, fs []*lfState, pos token.Pos) {
 			}
 		}
 		return 0, false
+	}
+	// a checksum compared with a loaded byte: "sum" event carrying the covered range (Idx =
+	// offset, L = length) and the index of the byte it is compared with (V)
+	for _, pr := range [][2]Lin{{cm.A, cm.B}, {cm.B, cm.A}} {
+		sy, ok := single(pr[0])
+		if !ok {
+			continue
+		}
+		sr, ok := e.sumOf[sy]
+		if !ok {
+			continue
+		}
+		osy, ok := single(pr[1])
+		if !ok {
+			continue
+		}
+		ref, ok := e.elemLoads[osy]
+		if !ok || ref.Org != sr.Org {
+			continue
+		}
+		off, ln, at := sr.Off, sr.Len, ref.Idx
+		emitS := func(states []*lfState, arm bool) {
+			eq := (cm.Op == token.EQL) == arm
+			if neg {
+				eq = !eq
+			}
+			out := "ne"
+			if eq {
+				out = "eq"
+			}
+			for _, s := range states {
+				s.events = append(s.events, lfEvent{Kind: "sum", Name: "checksum(" + sr.Org + "[" + e.linString(off) + ":+" + e.linString(ln) + "])", Val: out + " " + sr.Org + "[" + e.linString(at) + "]", Pos: pos, Org: sr.Org, Idx: &off, L: &ln, V: &at})
+			}
+		}
+		emitS(ts, true)
+		emitS(fs, false)
+		return
 	}
 	for _, pr := range [][2]Lin{{cm.A, cm.B}, {cm.B, cm.A}} {
 		sy, ok := single(pr[0])
@@ -1833,6 +1990,36 @@ func (e *lfEngine) doBinOp(fr *lfFrame, st *lfState, x *ssa.BinOp) {
 			}
 		}()
 	}
+	// both operands constant: fold exactly (non-negative operands; the narrowing of the
+	// result type is applied by normalise)
+	if ka, okA := a.isConst(); okA {
+		if kb, okB := b.isConst(); okB && ka >= 0 && kb >= 0 {
+			var res int64
+			folded := true
+			switch x.Op {
+			case token.AND:
+				res = ka & kb
+			case token.OR:
+				res = ka | kb
+			case token.XOR:
+				res = ka ^ kb
+			case token.AND_NOT:
+				res = ka &^ kb
+			case token.SHR:
+				if kb < 63 {
+					res = ka >> uint(kb)
+				} else {
+					folded = false
+				}
+			default:
+				folded = false
+			}
+			if folded {
+				fr.env[x] = vInt{E: e.normalise(st, linConst(res), t, name)}
+				return
+			}
+		}
+	}
 	switch x.Op {
 	case token.ADD:
 		fr.env[x] = vInt{E: e.normalise(st, a.add(b, 1), t, name)}
@@ -2377,6 +2564,19 @@ func (e *lfEngine) callIsPure(cc *ssa.CallCommon) bool {
 	}
 	if f := cc.StaticCallee(); f != nil && e.c.InModule(f) {
 		return e.isPure(f)
+	}
+	// code outside the module that is handed nothing it could write through (only numbers,
+	// booleans and strings) cannot change anything the analysis tracks
+	if f := cc.StaticCallee(); f != nil && !cc.IsInvoke() {
+		for _, a := range cc.Args {
+			switch t := a.Type().Underlying().(type) {
+			case *types.Basic:
+				_ = t
+			default:
+				return false
+			}
+		}
+		return true
 	}
 	return false
 }
